@@ -3,7 +3,10 @@
 use crate::{account::Signature, serialization, transaction::rlp};
 use ethaddr::Address;
 use ethnum::U256;
-use serde::Deserialize;
+use serde::{
+    de::{self, Deserializer},
+    Deserialize,
+};
 
 /// A Legacy Ethereum transaction.
 #[derive(Clone, Debug, Deserialize, Eq, PartialEq)]
@@ -27,8 +30,31 @@ pub struct LegacyTransaction {
     #[serde(with = "serialization::bytes")]
     pub data: Vec<u8>,
     /// Optional chain ID for the transaction.
-    #[serde(default, rename = "chainId", with = "serialization::numopt")]
+    #[serde(
+        default,
+        rename = "chainId",
+        deserialize_with = "deserialize_chain_id"
+    )]
     pub chain_id: Option<U256>,
+}
+
+/// The largest chain ID for which the EIP-155 replay protected signature value
+/// `v = 35 + 2 * chain_id + y_parity` still fits in 256 bits.
+const MAX_CHAIN_ID: U256 = U256::from_words(u128::MAX >> 1, u128::MAX - 18);
+
+/// Deserializes an optional chain ID, refusing values for which `v` would
+/// overflow (and silently wrap around, or panic in debug builds).
+fn deserialize_chain_id<'de, D>(deserializer: D) -> Result<Option<U256>, D::Error>
+where
+    D: Deserializer<'de>,
+{
+    let chain_id = serialization::numopt::deserialize(deserializer)?;
+    if matches!(chain_id, Some(chain_id) if chain_id > MAX_CHAIN_ID) {
+        return Err(de::Error::custom(
+            "chain ID too large for EIP-155 replay protection",
+        ));
+    }
+    Ok(chain_id)
 }
 
 impl LegacyTransaction {
